@@ -36,6 +36,10 @@ CLAIMED = {
    text="Machine-checked proof (Coq) that the scope analysis of a block is independent of the order in which the symbol map is iterated (any two permutations give the same per-name sets, scopes, Free flag and accept/reject), that forbidden declarations (parameter+global, global+nonlocal, nonlocal without enclosing binding or at module level) are rejected, and of the local/free binding rule. The per-name function of the model is tied to the exported Go method symtable.AnalyzeName on its entire finite input space (12288 inputs, compared inside Coq). Whole-program name resolution (cells shared by closures, late rebinding, class scopes, comprehensions, defaults, UnboundLocalError) is compared with CPython on seeded scope-tree programs, each also run twice to expose map-order dependence.",
    note="Trusted: Coq kernel; the exhaustive table harness (cmd/impl c03); CPython 3.11 as validated oracle. Partial: symbol-table pass 1, AnalyzeCells, child propagation, compile.go NameOp and the VM name opcodes are covered by differential testing only.",
    technique="Rocq/Coq permutation-invariance proof of the analysis loop + exhaustive model/implementation table + CPython differential on scope trees", ref="5/C03"),
+ "C05": dict(
+   text="Machine-checked proof (Coq) that a consumer whose end-of-iteration test is 'StopIteration, class or instance' yields exactly the elements up to the first StopIteration and propagates every other exception for EVERY producer history, and (per run, by vm_compute over an inventory regenerated from the Go source) that every place where the error of a __next__ call decides termination uses that test; the identity and any-error tests are refuted. Generator suspension/resumption (next/send histories over several live generators, nested finally, return values, yield from) and all listed consumers x producer kinds x raise positions are compared with CPython.",
+   note="Trusted: Coq kernel; the syntactic site classifier of go/cmd/extract (unknown shapes fail the obligation); CPython 3.11 as validated oracle (PEP 479 cases excluded). Partial: generator frames are not modelled; generator.throw/close are NotImplemented in gpython and outside the property.",
+   technique="Rocq/Coq generic consumer theorem + per-run forallb over a regenerated inventory of termination tests + CPython differential on generator histories", ref="5/C05"),
 }
 NOT_YET = "check not built yet in this round (planned in DESIGN.md section 8)"
 checks = []; na = []
